@@ -285,6 +285,8 @@ func (m *Machine) load(p value) value {
 		return copyVal(*p)
 	case *elemPtr:
 		return p.load()
+	case *logPtr:
+		return p.load()
 	}
 	panic(fmt.Sprintf("load from %T", p))
 }
@@ -298,6 +300,9 @@ func (m *Machine) store(p value, v value) {
 		storeInPlace(p, v)
 		return
 	case *elemPtr:
+		p.store(v)
+		return
+	case *logPtr:
 		p.store(v)
 		return
 	}
